@@ -37,25 +37,47 @@ theorem add_rinv {p : Port} {r : Run} (hr : r.dead = false) {s : S} (evs : List 
 theorem portInv_cases (p : Port) : (p = .telnet ∨ p = .console) ∨ (p = .ascii ∨ p = .binary) := by
   cases p <;> simp
 
+theorem readTail_rinv (o : Oracle) {p : Port} {r : Run} (hr : r.dead = false) {s : S} (evs : List Ev) (hp : s.port = p)
+    (h : Inv s) (hpi : PortInv s) : RInv p (readTail o r s evs) := by
+  unfold readTail
+  split
+  · split
+    · exact add_rinv hr _ hp h hpi
+    · split
+      · exact add_rinv hr _ hp h hpi
+      · dsimp only
+        split
+        · exact add_rinv hr _ hp ⟨h.textLen, h.se, h.eMax, h.dec⟩ ⟨hpi.nul, hpi.noflag⟩
+        · exact add_rinv hr _ hp ⟨h.textLen, h.se, h.eMax, h.dec⟩ ⟨hpi.nul, hpi.noflag⟩
+        · exact add_rinv hr _ hp ⟨h.textLen, h.se, h.eMax, h.dec⟩ ⟨hpi.nul, hpi.noflag⟩
+  · exact add_rinv hr _ hp h hpi
+
 theorem doRead_rinv (o : Oracle) {p : Port} {r : Run} (k : RInv p r) : RInv p (doRead o r) := by
   unfold doRead
   split
   · exact k
-  · rcases portInv_cases p with hp | hp
+  · rcases getUserDataH_cases o k.inv with ⟨hh, hpt, _⟩ | ⟨hh, _⟩
+    · rw [hh]
+      exact readTail_rinv o k.alive [] k.port ⟨k.inv.textLen, k.inv.se, k.inv.eMax, decInv_fl k.inv.dec _⟩
+        ⟨fun hn => nulAfter_fl (k.pinv.nul hn) _, fun hn => by
+          have : r.s.port = .ascii ∨ r.s.port = .binary := hn
+          rw [hpt] at this; simp at this⟩
+    rw [hh]
+    rcases portInv_cases p with hp | hp
     · rcases hp with hp | hp
       · -- telnet
         obtain ⟨s', evs, h1, h2, h3, h4, _⟩ := getUserData_N o k.inv (k.pinv.nul (Or.inl (k.port.trans hp))) (k.port.trans hp)
         rw [h1]
-        exact add_rinv k.alive evs (h4.trans hp.symm) h2 ⟨fun _ => h3, fun hh => by rw [h4] at hh; simp at hh⟩
+        exact readTail_rinv o k.alive evs (h4.trans hp.symm) h2 ⟨fun _ => h3, fun hh => by rw [h4] at hh; simp at hh⟩
       · -- console: get_user_data refuses
         have : getUserData o r.s = .ok (r.s, []) := by
           unfold getUserData; rw [if_pos (by rw [k.port, hp]; rfl)]
         rw [this]
-        exact add_rinv k.alive [] k.port k.inv k.pinv
+        exact readTail_rinv o k.alive [] k.port k.inv k.pinv
     · obtain ⟨s', evs, h1, h2, _, h4, h5⟩ := getUserData_ok' o k.inv
       rw [h1]
       have hnt : r.s.port ≠ .telnet := by rw [k.port]; rcases hp with hp | hp <;> rw [hp] <;> decide
-      refine add_rinv k.alive evs (h4.trans k.port) h2 ⟨fun hh => ?_, fun _ => ?_⟩
+      refine readTail_rinv o k.alive evs (h4.trans k.port) h2 ⟨fun hh => ?_, fun _ => ?_⟩
       · rw [h4, k.port] at hh; rcases hp with hp | hp <;> rw [hp] at hh <;> simp at hh
       · rw [h5 hnt]; exact k.pinv.noflag (by rw [k.port]; exact hp)
 
@@ -208,6 +230,11 @@ theorem stepOp_rinv (o : Oracle) {p : Port} {r : Run} (k : RInv p r) (op : Op)
   | finish => exact finishLoop_rinv o 20000 k
   | line b => exact doLine_rinv k (hw (Or.inl ⟨b, rfl⟩)) b
   | wpipe b => exact doWpipe_rinv k (hw (Or.inr ⟨b, rfl⟩)) b
+  | snoopOn =>
+    dsimp only
+    split
+    · exact k
+    · exact add_rinv (r := { r with snoop := true }) k.alive [] k.port k.inv k.pinv
   | getchar ne => exact doSetCall_rinv k (hw2 (Or.inr (Or.inl ⟨ne, rfl⟩))) true ne
   | inputto ne => exact doSetCall_rinv k (hw2 (Or.inr (Or.inr ⟨ne, rfl⟩))) false ne
   | serve => exact doServe_rinv k (hw2 (Or.inl rfl))
